@@ -19,7 +19,8 @@ Import ListNotations.
 From ClapModel Require Import Base.Bytes Base.Machine Base.Utf8.
 From ClapModel Require Import Parse.Cmd Parse.Build Parse.Valid Parse.Matcher Parse.Errors Parse.Validator Parse.Parser.
 From ClapModel Require Import ParseProofs.Actions ParseProofs.ActionsLoop ParseProofs.Spelling ParseProofs.Dispatch ParseProofs.Chain ParseProofs.ChainWide.
-From ClapModel Require Import Help.HelpLevel Help.HelpDispatch Help.HelpFlagGen Help.HelpChainWide.
+From ClapModel Require Import Complete.EngineProofs Complete.EngineLevel.
+From ClapModel Require Import Help.HelpLevel Help.HelpDispatch Help.HelpFlagGen Help.HelpUnbuilt Help.HelpChainWide.
 From RecordUpdate Require Import RecordSet.
 Import RecordSetNotations.
 Open Scope N_scope.
@@ -139,23 +140,23 @@ Proof. reflexivity. Qed.
 
 Section TailChain.
 Variable tail : list bytes.
-Variable at_level : cmd -> N -> error -> Prop.
-Hypothesis at_level_spec : forall c pos e, at_level c pos e -> forall f vaf st, fs_skip st = 0 ->
-  exists st2, (do lr <- parse_loop c tail (mkL PSValuesDone pos vaf false) st; fin f c lr) = RErr e st2.
+Variable at_level : cmd -> pstate_t -> N -> error -> Prop.
+Hypothesis at_level_spec : forall c pst pos e, at_level c pst pos e -> forall f vaf st, fs_skip st = 0 ->
+  exists st2, (do lr <- parse_loop c tail (mkL pst pos vaf false) st; fin f c lr) = RErr e st2.
 
-Lemma gmw_tail_wide : forall c toks ns lv pos, hsplit c toks ns lv pos -> forall f e,
-  valid_tree f c = true -> at_level lv pos e ->
+Lemma gmw_tail_wide : forall c toks ns lv pst pos, hsplit c toks ns lv pst pos -> forall f e,
+  valid_tree f c = true -> at_level lv pst pos e ->
   exists st, get_matches_with f c (toks ++ tail) ps_new = RErr e st.
 Proof.
-  induction 1 as [c pre F pos st' st1 Hp Hi Ha0 Ha|c pre F pst pos tok0 n sc0 sc rest0 ns lv pos' st' [Hneg Hign] Hp HF0 Hs Hf Hb Hh IH];
+  induction 1 as [c pre F pst pos st' st1 Hp Hi Ha0 Ha|c pre F pst pos tok0 n sc0 sc rest0 ns lv pst' pos' st' [Hneg Hign] Hp HF0 Hs Hf Hb Hh IH];
     intros f e Hv Hat; (destruct f as [|f]; [discriminate|]).
   - rewrite gmw_unfold, parsed_of_fin.
-    rewrite (loop_wprefix c false pre F PSValuesDone pos Hp tail ps_new eq_refl).
-    rewrite (wprefix_alone c pre F PSValuesDone pos Hp ps_new eq_refl) in Ha0.
+    rewrite (loop_wprefix c false pre F pst pos Hp tail ps_new eq_refl).
+    rewrite (wprefix_alone c pre F pst pos Hp ps_new eq_refl) in Ha0.
     destruct (F ps_new) as [st2|e0 s1|x] eqn:EF; cbn [rbind] in Ha0 |- *; try discriminate.
     inversion Ha0; subst st2. clear Ha0.
-    destruct (wprefix_fs c false pre F PSValuesDone pos Hp ps_new st' eq_refl EF) as [Hsk' _].
-    destruct (at_level_spec c pos e Hat f (negb (is_nil pre)) st' Hsk') as [st2 H2]. rewrite H2.
+    destruct (wprefix_fs c false pre F pst pos Hp ps_new st' eq_refl EF) as [Hsk' _].
+    destruct (at_level_spec c pst pos e Hat f (negb (is_nil pre)) st' Hsk') as [st2 H2]. rewrite H2.
     cbn [post]. rewrite Hi. exists st2. reflexivity.
   - assert (Hin : In sc0 (c_subs c)) by (unfold find_subcommand in Hf; apply find_some in Hf; apply Hf).
     destruct (valid_tree_child f c sc0 Hv Hin) as [sc2 [Eb2 Hv2]]. rewrite Hb in Eb2. inversion Eb2; subst sc2.
@@ -170,15 +171,15 @@ Proof.
     exists st'. reflexivity.
 Qed.
 
-Theorem parse_top_tail_wide c0 bin toks ns lv pos e :
+Theorem parse_top_tail_wide c0 bin toks ns lv pst pos e :
   is_set s_no_binary_name c0 = false -> c_bin_name c0 <> None ->
-  valid c0 = true -> hsplit (build_self c0) toks ns lv pos -> at_level lv pos e ->
+  valid c0 = true -> hsplit (build_self c0) toks ns lv pst pos -> at_level lv pst pos e ->
   parse_top c0 (bin :: toks ++ tail) = OErr e.
 Proof.
   intros Hnb Hbin Hv Hc Hat. unfold parse_top. rewrite Hnb. destruct (c_bin_name c0) as [b|]; [|contradiction].
   unfold do_parse. rewrite Hv. cbn [negb]. unfold valid in Hv. cbn zeta in Hv.
-  destruct (gmw_tail_wide _ _ _ _ _ Hc _ e Hv Hat) as [st H]. rewrite H.
-  rewrite (hsplit_root_ignore _ _ _ _ _ Hc). reflexivity.
+  destruct (gmw_tail_wide _ _ _ _ _ _ Hc _ e Hv Hat) as [st H]. rewrite H.
+  rewrite (hsplit_root_ignore _ _ _ _ _ _ Hc). reflexivity.
 Qed.
 End TailChain.
 
@@ -187,17 +188,22 @@ End TailChain.
 Definition help_sel (c : cmd) (tok : bytes) : Prop :=
   is_set s_disable_help_sub c = false /\ forall vaf, possible_subcommand c tok vaf = Some s_help.
 
-Lemma loop_help_sel c tok path pos vaf st : help_sel c tok ->
-  parse_loop c (tok :: path) (mkL PSValuesDone pos vaf false) st = ROk (LHelpSub path st).
+(** the loop looks for subcommands in this state: between two arguments, or anywhere when THIS level has
+    [subcommand_precedence_over_arg] *)
+Definition sub_tried (c : cmd) (pst : pstate_t) : Prop :=
+  (is_set s_sub_precedence c || match pst with PSValuesDone => true | _ => false end) = true.
+
+Lemma loop_help_sel c tok path pst pos vaf st : help_sel c tok -> sub_tried c pst ->
+  parse_loop c (tok :: path) (mkL pst pos vaf false) st = ROk (LHelpSub path st).
 Proof.
-  intros [Hd Hp]. cbn [parse_loop l_trailing l_pst l_vaf l_pos]. rewrite orb_true_r, (Hp vaf).
+  intros [Hd Hp] Ht. unfold sub_tried in Ht. cbn [parse_loop l_trailing l_pst l_vaf l_pos]. rewrite Ht, (Hp vaf).
   rewrite beq_refl, Hd. reflexivity.
 Qed.
 
 (** C12_help_subcommand_level *)
-Theorem help_sub_level c0 bin toks ns lv pos tok path lv' :
+Theorem help_sub_level c0 bin toks ns lv pst pos tok path lv' :
   is_set s_no_binary_name c0 = false -> c_bin_name c0 <> None ->
-  valid c0 = true -> hsplit (build_self c0) toks ns lv pos -> help_sel lv tok ->
+  valid c0 = true -> hsplit (build_self c0) toks ns lv pst pos -> help_sel lv tok /\ sub_tried lv pst ->
   p_level_walk lv path = Some lv' ->
   parse_top c0 (bin :: toks ++ tok :: path) = OErr (help_err lv' true)
   /\ p_level_walk (build_self c0) (ns ++ path) = Some lv'
@@ -205,28 +211,31 @@ Theorem help_sub_level c0 bin toks ns lv pos tok path lv' :
   /\ e_long (help_err lv' true) = true.
 Proof.
   intros Hnb Hbin Hv Hc Hsel Hw. split; [|split; [|repeat split]].
-  - apply (parse_top_tail_wide (tok :: path) (fun c _ e => help_sel c tok /\ e = help_walk c path)
-             (fun c p e H f vaf st _ =>
-                ex_intro _ st (eq_trans (f_equal (fun r => rbind r (fin f c)) (loop_help_sel c tok path p vaf st (proj1 H)))
+  - apply (parse_top_tail_wide (tok :: path) (fun c q _ e => (help_sel c tok /\ sub_tried c q) /\ e = help_walk c path)
+             (fun c q p e H f vaf st _ =>
+                ex_intro _ st (eq_trans (f_equal (fun r => rbind r (fin f c))
+                                                 (loop_help_sel c tok path q p vaf st (proj1 (proj1 H)) (proj2 (proj1 H))))
                                         (f_equal (fun e0 => RErr e0 st) (eq_sym (proj2 H)))))
-             c0 bin toks ns lv pos); try assumption.
+             c0 bin toks ns lv pst pos); try assumption.
     split; [exact Hsel|]. symmetry. apply help_walk_of_level. exact Hw.
-  - rewrite (p_level_walk_app ns (build_self c0) path lv (hsplit_level _ _ _ _ _ Hc)). exact Hw.
+  - rewrite (p_level_walk_app ns (build_self c0) path lv (hsplit_level _ _ _ _ _ _ Hc)). exact Hw.
 Qed.
 
 (** C12_help_subcommand_unknown: the first word that is no name / alias of the level reached is reported *)
-Theorem help_sub_unknown c0 bin toks ns lv pos tok known w more lvk :
+Theorem help_sub_unknown c0 bin toks ns lv pst pos tok known w more lvk :
   is_set s_no_binary_name c0 = false -> c_bin_name c0 <> None ->
-  valid c0 = true -> hsplit (build_self c0) toks ns lv pos -> help_sel lv tok ->
+  valid c0 = true -> hsplit (build_self c0) toks ns lv pst pos -> help_sel lv tok /\ sub_tried lv pst ->
   p_level_walk lv known = Some lvk -> find_subcommand lvk w = None ->
   parse_top c0 (bin :: toks ++ tok :: known ++ w :: more) = OErr (unknown_sub_err lvk w).
 Proof.
   intros Hnb Hbin Hv Hc Hsel Hw Hf.
-  apply (parse_top_tail_wide (tok :: known ++ w :: more) (fun c _ e => help_sel c tok /\ e = help_walk c (known ++ w :: more))
-           (fun c p e H f vaf st _ =>
-              ex_intro _ st (eq_trans (f_equal (fun r => rbind r (fin f c)) (loop_help_sel c tok _ p vaf st (proj1 H)))
+  apply (parse_top_tail_wide (tok :: known ++ w :: more)
+           (fun c q _ e => (help_sel c tok /\ sub_tried c q) /\ e = help_walk c (known ++ w :: more))
+           (fun c q p e H f vaf st _ =>
+              ex_intro _ st (eq_trans (f_equal (fun r => rbind r (fin f c))
+                                               (loop_help_sel c tok _ q p vaf st (proj1 (proj1 H)) (proj2 (proj1 H))))
                                       (f_equal (fun e0 => RErr e0 st) (eq_sym (proj2 H)))))
-           c0 bin toks ns lv pos); try assumption.
+           c0 bin toks ns lv pst pos); try assumption.
   split; [exact Hsel|]. symmetry. apply help_walk_unknown; assumption.
 Qed.
 
@@ -243,19 +252,19 @@ Qed.
 (** `p --verbose help sy q` on the three-level [hw_root]: the path goes through the alias `sy`; help of [q] *)
 Example hs_hyps_alias :
   is_set s_no_binary_name hw_root = false /\ c_bin_name hw_root <> None /\ valid hw_root = true
-  /\ hsplit (build_self hw_root) [dd w_verbose] [] (build_self hw_root) 1
-  /\ help_sel (build_self hw_root) s_help
+  /\ hsplit (build_self hw_root) [dd w_verbose] [] (build_self hw_root) PSValuesDone 1
+  /\ (help_sel (build_self hw_root) s_help /\ sub_tried (build_self hw_root) PSValuesDone)
   /\ exists lv', p_level_walk (build_self hw_root) [[115; 121]; b1 113] = Some lv' /\ c_name lv' = b1 113
        /\ parse_top hw_root (b1 112 :: [dd w_verbose] ++ s_help :: [[115; 121]; b1 113]) = OErr (help_err lv' true).
 Proof.
   split; [reflexivity|]. split; [discriminate|]. split; [vmr|]. split; [|split].
-  - eapply (hs_end _ [dd w_verbose]).
+  - eapply (hs_end _ [dd w_verbose] _ PSValuesDone).
     + apply wp_plain, wb_plain, prefix_pitems. eapply (po_cons _ [dd w_verbose] _ []); [|apply po_nil].
       eapply it_flag; [solve_nosub|vmr|vmr|vmr].
     + vmr.
     + vmr.
     + vmr.
-  - split; [vmr|]. solve_nosub.
+  - split; [split; [vmr|solve_nosub]|apply orb_true_r].
   - destruct (p_level_walk (build_self hw_root) [[115; 121]; b1 113]) as [lv'|] eqn:E; [|vm_compute in E; discriminate].
     exists lv'. split; [reflexivity|]. vm_compute in E. inversion E; subst lv'. split; vmr.
 Qed.
@@ -266,8 +275,8 @@ Qed.
 Definition hs_wide : cmd := (ex_wide false) <| c_bin_name := Some (b1 112) |>.
 Example hs_hyps_infer :
   is_set s_no_binary_name hs_wide = false /\ c_bin_name hs_wide <> None /\ valid hs_wide = true
-  /\ hsplit (build_self hs_wide) [[45; 103]; b1 120; b1 97] [] (build_self hs_wide) 2
-  /\ help_sel (build_self hs_wide) [104; 101]
+  /\ hsplit (build_self hs_wide) [[45; 103]; b1 120; b1 97] [] (build_self hs_wide) PSValuesDone 2
+  /\ (help_sel (build_self hs_wide) [104; 101] /\ sub_tried (build_self hs_wide) PSValuesDone)
   /\ (exists lv', p_level_walk (build_self hs_wide) [w_delete] = Some lv' /\ c_name lv' = w_remove
        /\ parse_top hs_wide (b1 112 :: [[45; 103]; b1 120; b1 97] ++ [104; 101] :: [w_delete]) = OErr (help_err lv' true))
   /\ find_subcommand (build_self hs_wide) [100; 101; 108] = None
@@ -276,14 +285,46 @@ Example hs_hyps_infer :
      = OErr (unknown_sub_err (build_self hs_wide) [100; 101; 108]).
 Proof.
   split; [reflexivity|]. split; [discriminate|]. split; [vmr|]. split; [|split; [|split]].
-  - eapply (hs_end _ [[45; 103]; b1 120; b1 97]).
+  - eapply (hs_end _ [[45; 103]; b1 120; b1 97] _ PSValuesDone).
     + apply wp_plain, wb_plain. eapply (pi_opt _ 1 [[45; 103]; b1 120] _ [b1 97]); [short_sep_g|].
       eapply (pi_pos _ 1 (b1 97) _ []); [solve_nosub|solve_plain|solve_takes|vmr|apply pi_nil].
     + vmr.
     + vmr.
     + vmr.
-  - split; [vmr|]. solve_nosub.
+  - split; [split; [vmr|solve_nosub]|apply orb_true_r].
   - destruct (p_level_walk (build_self hs_wide) [w_delete]) as [lv'|] eqn:E; [|vm_compute in E; discriminate].
     exists lv'. split; [reflexivity|]. vm_compute in E. inversion E; subst lv'. split; vmr.
   - split; [vmr|]. split; vmr.
+Qed.
+
+(** `p a b sync --help` / `-h` on [hs_wide]: the help flag is read while <files>... collects values (`sync` is swallowed:
+    no [subcommand_precedence_over_arg]); the help of the ROOT, not of [sync] *)
+Definition hs_files : arg :=
+  Eval vm_compute in match find_arg (build_self hs_wide) w_files with Some a => a | None => arg_new [] end.
+Example hs_hyps_multi :
+  is_set s_no_binary_name hs_wide = false /\ c_bin_name hs_wide <> None /\ valid hs_wide = true /\ tree_all unb hs_wide
+  /\ hsplit (build_self hs_wide) [b1 97; b1 98; w_sync] [] (build_self hs_wide) (PSPos w_files) 2
+  /\ pst_ok (build_self hs_wide) (PSPos w_files)
+  /\ is_set s_disable_help_flag (build_self hs_wide) = false
+  /\ possible_subcommand (build_self hs_wide) tok_help_long false = None
+  /\ possible_subcommand (build_self hs_wide) tok_help_short false = None
+  /\ no_hyphen_pos (build_self hs_wide) 2
+  /\ parse_top hs_wide (b1 112 :: [b1 97; b1 98; w_sync] ++ tok_help_long :: []) = OErr (help_err (build_self hs_wide) true)
+  /\ parse_top hs_wide (b1 112 :: [b1 97; b1 98; w_sync] ++ tok_help_short :: []) = OErr (help_err (build_self hs_wide) false).
+Proof.
+  split; [reflexivity|]. split; [discriminate|]. split; [vmr|]. split; [apply (unb_tree_ok 5); vmr|].
+  split.
+  { eapply (hs_end _ [b1 97; b1 98; w_sync] _ (PSPos w_files) 2).
+    - apply wp_plain. eapply (wb_multi _ [b1 97] _ 2 hs_files (b1 98) [w_sync]).
+      + eapply (pi_pos _ 1 (b1 97) _ []); [solve_nosub|solve_plain|solve_takes|vmr|apply pi_nil].
+      + refine (conj _ (conj _ (conj _ _))); cycle 3.
+        * repeat (apply Forall_cons; [split; [solve_plain|solve_takes]|]). apply Forall_nil.
+        * vmr.
+        * solve_nosub.
+        * intros H; vm_compute in H; discriminate.
+    - vmr.
+    - vmr.
+    - vmr. }
+  split; [eexists; split; vmr|].
+  split; [vmr|]. split; [vmr|]. split; [vmr|]. split; [vm_compute; tauto|]. split; vmr.
 Qed.
